@@ -1209,10 +1209,15 @@ class Runner:
             self.fail('reload-version', f'{where}: MdibVersion {self.vg()[0]}, expected {vmax}')
         for i in during:
             r = hist.reports[i]
-            if r.vg[1] == cap.snap.vg[1] and r.vg[0] <= self.vg()[0]:
+            if r.vg[1] == cap.snap.vg[1] and r.vg[0] <= self.vg()[0] and \
+                    (r.vg[0] > cap.snap.vg[0] or ctx_idx == cap_idx or bool(cap.snap.cstates) or r.rk not in (3, 6)):
                 self.delivered.add(i)
+        # reports that are contained in the loaded content count as applied (a later delivery is a duplicate). When the
+        # context states came from a GetContextStates answer of another moment, the load is no consistent snapshot
+        # with respect to context states: only the single-state reports are certainly contained then.
+        consistent = ctx_idx == cap_idx or bool(cap.snap.cstates)
         for i in range(cap.wire_len):
-            if hist.reports[i].vg[1:] == cap.snap.vg[1:]:
+            if hist.reports[i].vg[1:] == cap.snap.vg[1:] and (consistent or hist.reports[i].rk not in (3, 6)):
                 self.delivered.add(i)     # contained in the snapshot
         # loss-free initial load: the applicable notifications are exactly the next reports, once, in order
         expect = list(range(cap.wire_len, cap.wire_len + len(applicable)))
